@@ -291,6 +291,14 @@ class Interp:
             recv = self.expr(e["recv"], scopes)
             args = [self.expr(a, scopes) for a in e["args"]]
             m = e["m"]
+            if e.get("user"):
+                f = self.funs[m]
+                sc = [{p[0]: a for p, a in zip(f["params"], args) if p[0] != "_"}]
+                sc[0]["this"] = recv
+                try:
+                    return self.block(f["body"], sc)
+                except Return as r:
+                    return r.v
             if m == "len":
                 return len(recv)
             if m == "append":
